@@ -27,11 +27,19 @@ class P(vlib.Prop):
             "flipped, trailing garbage or second member, noise, empty; header naming the right codec, another codec, "
             "deflate, upper case, lists, unknown names; limit L, or the raw size +-1); custom (WithDecoder: pass-through, "
             "(nil,nil), error, byte-doubling; also overriding gzip, zstd, deflate and ''); nildecoder (enabled name without "
-            "decoder). Large (sizes only): every type, bodies 2^15, 2^16, 2^17, 2^18 +-1, 4 MiB, random sizes up to 200 kB, "
-            "limits n-1, n, n+1, n/10, default. For every case the five codec libraries are called directly to tabulate "
+            "decoder); pairgrid (exhaustive: every single enabled name x every content-encoding name of the default list, "
+            "valid body for the header's codec). Request framing is a dimension of EVERY class: 35-65% of the non-empty "
+            "bodies are handed over as opaque readers (no length declared: sent chunked, ContentLength -1 at the server; "
+            "identity bodies without declared length get limits at or below their size), method POST/PUT/PATCH/DELETE "
+            "(the model has no method input; the declared length is an independent input of the model's server). "
+            "Large (sizes only), stratified: for every type, every level class (flate default/1/6/9/huffman-only, zstd "
+            "one level per encoder speed class 0/3/7/11) first with a body > 128 KiB (2^18 +-1, 135-600 kB, 512 KiB or "
+            "4 MiB), then bodies 2^15, 2^16, 2^17, 2^18 +-1, 4 MiB, random sizes up to 200 kB; limits n-1, n, n+1, n/10, "
+            "default; plus large identity bodies and large bodies compressed beforehand by the library at any level and "
+            "sent by a non-compressing client, half of them chunked. For every case the five codec libraries are called directly to tabulate "
             "enc(body) at the configured/default/zero level and dec(limited raw body) for all five codecs; the Coq model "
             "(client, server / lserver) is evaluated on these tables with vm_compute and compared with: client refused or "
-            "not, Content-Encoding values and body on the wire, outcome (handler ran / rejected / panicked), status, "
+            "not, Content-Encoding values, body and declared length on the wire, outcome (handler ran / rejected / panicked), status, "
             "Content-Encoding values and ContentLength seen by the handler, bytes read by the handler, error class "
             "(nil / MaxBytesError / other). A case is non-trivial when the client was built and the request carries an "
             "encoding or a non-empty body or was not handled; distinct = distinct case terms. Plus 6 types x 8 goroutines "
